@@ -300,12 +300,8 @@ def check_estimator(acc, name, kind, factory, opts, depth):
 
 
 def _changed_params(pristine, used):
-    a, b = pristine.get_params(deep=True), used.get_params(deep=True)
-    out = []
-    for k in sorted(set(a) | set(b)):
-        if F.digest(F.canon(a.get(k))) != F.digest(F.canon(b.get(k))):
-            out.append(k)
-    return out
+    a, b = F.params_dict_fp(pristine), F.params_dict_fp(used)
+    return [k for k in sorted(set(a) | set(b)) if a.get(k) != b.get(k)]
 
 
 def _fmt(h):
